@@ -75,7 +75,7 @@ class CallMixin:
         if t.kind == 'int' and isinstance(v, SV) and v.t.kind == 'bool':
             return SV(INT, pack(st, v, INT))
         if t.kind == 'tuple' and isinstance(v, TupV) and len(t.args) == len(v.items):
-            return TupV([self.coerce_to(st, x, a) for x, a in zip(v.items, t.args)])
+            return TupV([self.coerce_to(st, x, a) for x, a in zip(v.items, t.args)], v.cls)
         if t.kind in ('list', 'dict', 'set') and isinstance(v, Ref):
             c = st.store[v.id]
             if c.t != t:
@@ -142,8 +142,23 @@ class CallMixin:
                         yield EnumConst(v.qual, attr), st
                         return
             raise OutOfSubset('class attribute %s.%s' % (v.qual, attr))
-        if isinstance(v, (SV, TupV)) and attr in ('real', 'imag') :
-            raise OutOfSubset('complex')
+        if isinstance(v, SV) and v.t.kind == 'tuple' and v.t.name:
+            v = unpack(st, v.e, v.t)
+        if isinstance(v, TupV) and v.cls is not None:
+            names = VALUE_FIELDS[v.cls]
+            if attr in names:
+                yield v.items[names.index(attr)], st
+                return
+            cs = REG.cls(v.cls)
+            fi = self.find_method_for(cs.qual, attr)
+            if fi is not None:
+                if fi.is_property:
+                    yield from self.call_fn(fi, [v], {}, st, node)
+                else:
+                    yield FunV('qual', qual=fi.qual, self_=v), st
+                return
+            self.safety(st, z3.BoolVal(False), 'attribute-exists:%s' % attr, node)
+            raise PathEnd()
         if isinstance(v, TupV) or isinstance(v, SV):
             yield FunV('cmeth', self_=v, qual=attr), st
             return
@@ -177,6 +192,11 @@ class CallMixin:
     def resolve_global(self, name, st):
         if name in REG.sorts:
             return SortV(name)
+        from .ty import _VALUE_CLASSES
+        if name in _VALUE_CLASSES and st.spec:
+            return SortV(name, _VALUE_CLASSES[name])
+        if name == 'Int' and st.spec:
+            return SortV('Int', INT)
         if name in ('True', 'False'):
             return mk_bool(name == 'True')
         if name in self.EXTERNAL_MODULES and self.EXTERNAL_MODULES[name]:
@@ -243,6 +263,8 @@ class CallMixin:
                 return
             if n == 'sum' and len(e.args) == 1 and isinstance(e.args[0], (ast.GeneratorExp, ast.ListComp)):
                 raise OutOfSubset('sum over generator')
+            if n in REG.ufuncs:
+                self.ufuncs_used.add(n)
             if n in REG.predicates and n not in st.env:
                 params, body, _ = REG.predicates[n]
                 for vs, st1 in self.ev_list(e.args, st):
@@ -283,38 +305,45 @@ class CallMixin:
         dom = self.ev1(gen.iter, sub)
         bvars = []
         if isinstance(dom, SortV):
-            t = Ty('sort', (), dom.name)
-            if FINITE['K'] is not None:
+            t = dom.ty
+            uni = finite_universe_of(t) if FINITE['K'] is not None else None
+            if uni is not None:
                 res = []
-                for c in finite_universe(t):
+                for c in uni:
                     s2 = sub.fork()
-                    self.bind_target(gen.target, SV(t, c), s2)
+                    self.bind_target(gen.target, unpack(s2, c, t), s2)
                     conds = [self.truth(self.ev1(c2, s2), s2) for c2 in gen.ifs]
                     body = self.truth(self.ev1(g.elt, s2), s2)
                     res.append(z3.Implies(z3and(conds), body) if kind == 'all' else z3.And(z3and(conds), body))
                 return SV(BOOL, z3.And(res) if kind == 'all' else z3.Or(res))
             x = fresh_const('q', sort_of(t))
             bvars = [x]
-            self.bind_target(gen.target, SV(t, x), sub)
+            self.bind_target(gen.target, unpack(sub, x, t), sub)
             guard = z3.BoolVal(True)
         else:
             n, el = self.iter_domain(dom, sub, gen.iter)
             K = FINITE['K']
-            if K is not None and not isinstance(self.lift(dom), RangeV):
-                pass
             if K is not None:
-                # finite scope: expand over 0..K-1 (lengths are bounded by K in this mode)
+                # finite scope: expand (lengths are bounded by K in this mode; integer ranges are
+                # restricted to [0, K+1) through a side constraint added to every finite check)
                 res = []
-                bound = K + 1 if isinstance(self.lift(dom), RangeV) else K
-                for c in range(bound):
+                ld = self.lift(dom)
+                is_range = isinstance(ld, RangeV)
+                if is_range:
+                    lo, hi = self.num(ld.start, sub)[0], self.num(ld.stop, sub)[0]
+                    self.finite_side.append(z3.Or(hi <= lo, z3.And(lo >= 0, hi <= K + 1)))
+                for c in range(K + 1 if is_range else K):
                     s2 = sub.fork()
                     ci = z3.IntVal(c)
-                    self.bind_target(gen.target, el(ci), s2)
-                    conds = [ci < n] + [self.truth(self.ev1(c2, s2), s2) for c2 in gen.ifs]
+                    if is_range:
+                        self.bind_target(gen.target, SV(INT, ci), s2)
+                        conds = [lo <= ci, ci < hi]
+                    else:
+                        self.bind_target(gen.target, el(ci), s2)
+                        conds = [ci < n]
+                    conds += [self.truth(self.ev1(c2, s2), s2) for c2 in gen.ifs]
                     body = self.truth(self.ev1(g.elt, s2), s2)
                     res.append(z3.Implies(z3and(conds), body) if kind == 'all' else z3.And(z3and(conds), body))
-                if isinstance(self.lift(dom), RangeV):
-                    sub.assumed.append(n <= bound)
                 return SV(BOOL, z3.And(res) if kind == 'all' else z3.Or(res))
             i = fresh_const('q', z3.IntSort())
             bvars = [i]
@@ -366,8 +395,24 @@ class CallMixin:
             raise SpecError('no method %s' % name)
         yield from self.call_fn(fi, [recv] + list(args), kwargs, st, node)
 
+    def record_lt(self, a, b, st, node):
+        """a < b for records through the class's real __lt__ (inlined) -> z3 Bool"""
+        cs = REG.cls(a.cls)
+        fi = self.find_method_for(cs.qual, '__lt__')
+        if fi is None:
+            raise OutOfSubset('no __lt__ on %s' % a.cls)
+        sub = st.fork()
+        outs = list(self.inline_fn(fi, [a, b], {}, sub, node))
+        if len(outs) != 1:
+            raise OutOfSubset('__lt__ forks')
+        return self.truth(outs[0][0], outs[0][1])
+
     def compare_obj(self, op, l, r, st, node):
         l, r = self.lift(l), self.lift(r)
+        if isinstance(l, TupV) and l.cls is not None and isinstance(op, (ast.Lt, ast.Gt)):
+            a, b = (l, r) if isinstance(op, ast.Lt) else (r, l)
+            yield SV(BOOL, self.record_lt(a, b, st, node)), st
+            return
         if isinstance(op, (ast.In, ast.NotIn)):
             for v, st1 in self.call_method(r, '__contains__', [l], {}, st, node):
                 c = self.truth(v, st1)
@@ -503,7 +548,10 @@ class CallMixin:
                 fields[n] = self.coerce_to(st, v, cs.fields[n])
             for k, v in kwargs.items():
                 fields[k] = self.coerce_to(st, v, cs.fields[k])
-            yield TupV([fields[n] for n in names]) if False else Ref(st.alloc(ObjC(cs.qual, fields)), Ty('obj', (), cs.name)), st
+            if set(fields) != set(names):
+                self.safety(st, z3.BoolVal(False), 'call-arity', node)
+                raise PathEnd()
+            yield TupV([fields[n] for n in names], cs.name), st
             return
         init = self.index.find_method(ci, '__init__')
         obj = Ref(st.alloc(ObjC(ci.qual, {})), Ty('obj', (), ci.qual.split('.')[-1]))
@@ -656,8 +704,9 @@ class CallMixin:
 
 
 class SortV:
-    def __init__(self, name):
+    def __init__(self, name, ty=None):
         self.name = name
+        self.ty = ty or Ty('sort', (), name)
     t = Ty('sortv')
 
 
